@@ -24166,6 +24166,11 @@ func (lex *Lexer) Lex() *token.Token {
 
 	// line internal/scanner/scanner.rl:497
 
+	if lex.ts > lex.te {
+		// the machine stopped without a match (e.g. after a one-letter heredoc label): no token text
+		lex.te = lex.ts
+	}
+
 	tkn.Value = lex.data[lex.ts:lex.te]
 	tkn.ID = token.ID(tok)
 
